@@ -34,7 +34,7 @@ def M(data):
 
 
 TEXTS = ["", "a", "A", "b", "10", "9", "abc", "ABC", " 1", "1 ", "1e1", "1E1", "0x10", "0X10", "1.5", "-1", "+1", "1.0",
-         "10.0", "010", ".", "é", "É", "ab", "1a", "0x1A", "0x1a"]
+         "10.0", "010", ".", "é", "É", "ab", "1a", "0x1A", "0x1a", "1000000", "1e+06", "1000000x", "16777216", "1.23457e+06"]
 NTEXTS = ["", "1", "2", "3", "3.5", "7", "7.25", "0", "-0.5", "-3", "-3.5", "10", "9", "1.5", "-1", "1e1", "1E1", "0x10", "0X10", " 1", "1 ", "abc", "1.0", "10.0", "010", "+1", "0x1A", "0x1a",
           "9223372036854775807", "1e300"]
 
@@ -45,7 +45,7 @@ def base_pool():
     p += ["B%d" % b for b in (97, 65, 0, 49, 200, 232)]
     p += ["I%d" % i for i in (0, 1, -1, 2, 10, 9, 100, INT_MIN, INT_MAX, INT_MAX - 1, 2 ** 53 + 1, 2 ** 53)]
     p += ["F" + f for f in ("0.0", "-0.0", "1.0", "1.5", "-1.5", "10.0", "9.5", "1e300", "-1e300", "0x1p63", "0x8000000000000001p0",
-                            "0xfffffffffffffffep-1", "0x1p-1074", "0.1", "9007199254740992.0")]
+                            "0xfffffffffffffffep-1", "0x1p-1074", "0.1", "9007199254740992.0", "1e6", "16777216.0", "-2e6", "1234567.5", "1e15")]
     p += [S(t) for t in TEXTS]
     p += [T(t) for t in NTEXTS]
     p += [M(t) for t in TEXTS] + [M(b"\xc8"), M(b"\xe8"), M(b"\xff\x00")]
@@ -827,7 +827,21 @@ def hawk_literal(spec):
         return None if abs(v) >= 2 ** 62 else ("(%d)" % v)
     if k == "F":
         t = spec[1:]
-        return ("(%s)" % t) if all(c in "0123456789.-e" for c in t) and "." in t else None
+        if not (all(c in "0123456789.-e" for c in t) and "." in t):
+            return None
+        # hawk's own parser does not read every long decimal literal to the same float as strtold (which builds the
+        # harness value the descriptor belongs to): `7811798266873902.0` comes out a hair off and is then no longer
+        # integral.  Since fix 65b4a33 an integral float prints as an integer, so the two values would print differently.
+        # Literals are therefore limited to short ones; large and exact floats are exercised in-process (asortx).
+        try:
+            fv = float(t)
+        except ValueError:
+            return None
+        if len(t.replace("-", "").replace(".", "").lstrip("0")) > 9 and "e" not in t:
+            return None
+        if fv == int(fv) and abs(fv) >= 1e6 and abs(fv) < 2.0 ** 64:
+            return None
+        return "(%s)" % t
     if k == "C":
         c = int(spec[1:])
         return "'%s'" % chr(c) if 32 < c < 127 and chr(c) not in "'\\" else None
